@@ -4,6 +4,8 @@ CONSTANTS MaxLinks = 2
  Chunk = 4
  Read = 2
  Shapes = {1,2,3,4,5,6,7,8,9,10,11,12,13}
+ Damage = 0
+ Clamp = TRUE
  Trim = TRUE
 INVARIANT OpenSucceeds
 INVARIANT LinkTableIsTheTruth
